@@ -4,7 +4,7 @@ from concurrent.futures import ThreadPoolExecutor
 
 LEVEL = "proof"
 LIBS = ["PgpCodecLemmas.vo", "PgpArmorLemmas.vo", "PgpPacketLemmas.vo"]
-PARTS = ["r64", "crc", "armor", "len", "mpi", "s2kcnt", "s2k", "fpr", "pkt"]
+PARTS = ["r64", "crc", "armor", "len", "mpi", "s2kcnt", "s2k", "fpr", "pkt", "prep"]
 
 def s2k_slices(tier):
     # the 256 coded counts: hashing cost doubles every 16 codes; spread over processes, heavy codes in small slices
